@@ -171,13 +171,15 @@ def get_c2c_expansion__count__start_size(length, count, start_size):
     """Calculates cell-to-cell expansion ratio from given count and start size"""
     _validate_length(length)
     _validate_count(count, ">=1")
+
+    # uniform cells (including a single cell as long as the edge)
+    if abs(count * start_size - length) / length < constants.TOL:
+        return 1
+
     if not (length > start_size > 0):
         raise ValueError(f"Start size {start_size} must be between 0 and length {length}, got {start_size}")
 
     if count == 1:
-        return 1
-
-    if abs(count * start_size - length) / length < constants.TOL:
         return 1
 
     if count * start_size < length:
